@@ -53,6 +53,12 @@ class YaccError(Exception):
 ERROR_COUNT = 3                # Number of symbols that must be shifted to leave recovery mode
 MAXINT = sys.maxsize
 
+# Verification hooks (off unless MINDSDB_SQL_VERIF=1 and a sink is installed).
+# One event per branch of Parser.parse, emitted after the state change.
+import os as _os
+_VERIF = _os.environ.get('MINDSDB_SQL_VERIF') == '1'
+_verif_sink = None
+
 # This object is a stand-in for a logging object created by the
 # logging module.   SLY will use this by default to create things
 # such as the parser.out file.  If a user wants more detailed
@@ -2089,6 +2095,8 @@ class Parser(metaclass=ParserMeta):
             self._index_positions = { }          # id: -> (start, end)
 
         errtoken   = None                                 # Err token
+        _vs = _verif_sink if _VERIF else None
+        if _vs: _vs(self, 'begin')
         while True:
             # Get the next symbol on the input.  If a lookahead symbol
             # is already set, we just use that. Otherwise, we'll pull
@@ -2098,8 +2106,10 @@ class Parser(metaclass=ParserMeta):
                     if not lookaheadstack:
                         lookahead = next(tokens, None)  # Get the next token
                         self.used_tokens.append(lookahead)
+                        if _vs: _vs(self, 'pull', lookahead)
                     else:
                         lookahead = lookaheadstack.pop()
+                        if _vs: _vs(self, 'poplook', lookahead)
                     if not lookahead:
                         lookahead = YaccSymbol()
                         lookahead.type = '$end'
@@ -2116,6 +2126,7 @@ class Parser(metaclass=ParserMeta):
                     statestack.append(t)
                     self.state = t
 
+                    if _vs: _vs(self, 'shift', t, lookahead)
                     symstack.append(lookahead)
                     lookahead = None
 
@@ -2136,6 +2147,7 @@ class Parser(metaclass=ParserMeta):
 
                     sym = YaccSymbol()
                     sym.type = pname       
+                    if _vs: _vs(self, 'reduce_begin', -t)
                     value = p.func(self, pslice)
                     if value is pslice:
                         value = (pname, *(s.value for s in pslice._slice))
@@ -2163,10 +2175,12 @@ class Parser(metaclass=ParserMeta):
                     symstack.append(sym)
                     self.state = goto[statestack[-1]][pname]
                     statestack.append(self.state)
+                    if _vs: _vs(self, 'reduce', -t, self.state)
                     continue
 
                 if t == 0:
                     n = symstack[-1]
+                    if _vs: _vs(self, 'accept')
                     result = getattr(n, 'value', None)
                     return result
 
@@ -2189,7 +2203,9 @@ class Parser(metaclass=ParserMeta):
                     else:
                         errtoken = lookahead
 
+                    if _vs: _vs(self, 'error_cb_begin', self.state, errtoken, list(actions[self.state].keys()))
                     tok = self.error(errtoken, expected_tokens=list(actions[self.state].keys()))
+                    if _vs: _vs(self, 'error_cb', tok)
                     if tok:
                         # User must have done some kind of panic
                         # mode recovery on their own.  The
@@ -2200,16 +2216,19 @@ class Parser(metaclass=ParserMeta):
                     else:
                         # If at EOF. We just return. Basically dead.
                         if not errtoken:
+                            if _vs: _vs(self, 'return_none')
                             return
                 else:
                     # Reset the error count.  Unsuccessful token shifted
                     errorcount = ERROR_COUNT
+                    if _vs: _vs(self, 'reset_errcount')
 
                 # case 1:  the statestack only has 1 entry on it.  If we're in this state, the
                 # entire parse has been rolled back and we're completely hosed.   The token is
                 # discarded and we just keep going.
 
                 if len(statestack) <= 1 and lookahead.type != '$end':
+                    if _vs: _vs(self, 'discard', lookahead)
                     lookahead = None
                     self.state = 0
                     # Nuke the lookahead stack
@@ -2221,6 +2240,7 @@ class Parser(metaclass=ParserMeta):
 
                 # Start nuking entries on the stack
                 if lookahead.type == '$end':
+                    if _vs: _vs(self, 'bail')
                     # Whoa. We're really hosed here. Bail out
                     return
 
@@ -2229,6 +2249,7 @@ class Parser(metaclass=ParserMeta):
                     if sym.type == 'error':
                         # Hmmm. Error is on top of stack, we'll just nuke input
                         # symbol and continue
+                        if _vs: _vs(self, 'nuke', lookahead)
                         lookahead = None
                         continue
 
@@ -2245,10 +2266,12 @@ class Parser(metaclass=ParserMeta):
                     t.value = lookahead
                     lookaheadstack.append(lookahead)
                     lookahead = t
+                    if _vs: _vs(self, 'push_error')
                 else:
                     sym = symstack.pop()
                     statestack.pop()
                     self.state = statestack[-1]
+                    if _vs: _vs(self, 'pop', self.state)
                 continue
 
             # Call an error function here
